@@ -51,7 +51,7 @@ def _refs(r, sh, nested):
     k = r.get('k')
     if k == 'sh':
         sh.add(r['i'])
-    elif k in ('call0', 'other'):
+    elif k in ('call0', 'other', 'same'):
         _refs(r['of'], sh, nested)
     elif k == 'list':
         for x in r['of']:
